@@ -8,7 +8,7 @@ from props._design import *  # noqa: F401,F403
 from props import _design as D
 
 ID = "C05"
-PROP_FILES = ["Properties/C05.v", "Properties/C05_rank.v", "Properties/C05_rank_num.v"]
+PROP_FILES = ["Properties/C05.v", "Properties/C05_rank.v", "Properties/C05_rank_num.v", "Properties/C05_bridge.v"]
 THEOREMS = ["C05_group_block", "C05_onehot_kron", "C05_group_labels"]
 ASSUMPTIONS = ["fully crossed data for the rank part", "integer-valued numerics"]
 RULE = ("effect expressions (intercept, numeric, categorical, transforms, interactions, sums; with and without "
@@ -18,8 +18,8 @@ EXHAUSTIVE = {"quick": True, "thorough": True}
 
 EFFECTS = ["1", "x", "0 + x", "f", "0 + f", "x + z", "0 + x + z", "x:z", "center(x)", "scale(z)", "x:f", "0 + x:f",
            "f + h", "0 + f + h", "f:h", "x + f", "0 + x + f", "1 + x", "C(k)", "0 + C(k)", "x*z", "f*h", "I(x + 1)",
-           "0 + bs(x, df=3)", "bs(x, df=3)", "0 + poly(x, 2, raw=True)", "poly(z, 2, raw=True)"]
-GROUPS = ["g", "g:h", "g + h", "g/h", "C(k)", "k", "o"]
+           "0 + bs(x, df=3)", "bs(x, df=3)", "0 + poly(x, 2, raw=True)", "poly(z, 2, raw=True)", "C(c)", "0 + C(c)"]
+GROUPS = ["g", "g:h", "g + h", "g/h", "C(k)", "k", "o", "C(c)"]
 
 
 def gen(rng, tier):
@@ -29,12 +29,12 @@ def gen(rng, tier):
         for e in EFFECTS:
             for g in GROUPS:
                 import re as _re
-                used = [v for v in ["f", "g", "h", "o", "k"] if _re.search(r"\b" + v + r"\b", e + " " + g)]
+                used = [v for v in ["f", "g", "h", "o", "k", "c"] if _re.search(r"\b" + v + r"\b", e + " " + g)]
                 if any(_re.search(r"\b" + v + r"\b", e) and _re.search(r"\b" + v + r"\b", g) for v in used):
                     continue  # the same variable on both sides is not a crossed design
                 cats = used if used else ["g"]
                 fr = gen_dm.make_frame(rng, factorial=True, cats=cats, nlev={"f": 2, "g": rng.choice([2, 3]), "h": 2,
-                                                                             "k": 3, "o": 3})
+                                                                             "k": 3, "o": 3, "c": 3})
                 cases.append({"formula": f"y ~ x + ({e} | {g})", "frame": fr, "na": "drop", "kind": "grid",
                               "effect": e, "group": g})
     # the same grouping factor written in different factor orders / reached through different operators
